@@ -159,8 +159,10 @@ def from_field(fn, o, field):
     return any(("." + field) in p for p in proj_roots(fn, o))
 
 
-def slice_locals(fn, o, depth=0):
-    """locals reachable backwards from operand o through plain copies/moves"""
+def slice_locals(fn, o, depth=0, strict=False):
+    """locals reachable backwards from operand o through plain copies/moves.
+    strict: follow only once-assigned temporaries (a variable assigned more than once - an accumulator, a loop
+    variable - ends the slice), so the result names values, not storage"""
     p = o.get("c") or o.get("m")
     if p is None:
         return set()
@@ -168,6 +170,8 @@ def slice_locals(fn, o, depth=0):
     work = [p[0]]
     while work:
         l = work.pop()
+        if strict and fn.single_def(l) is None:
+            continue
         for node, kind, pl in fn.defs().get(l, []):
             if kind == "assign" and pl["rv"]["r"] == "use":
                 q = pl["rv"]["o"].get("c") or pl["rv"]["o"].get("m")
